@@ -297,6 +297,29 @@ def r20_iter_while(text):
     return text, cnt
 
 
+def r21_slice_patterns(text):
+    """R21 (opt-in): `match (.., X) { (.., []) => A, (.., [p]) => B, .. }` with X a slice becomes
+    `match (.., verif_slice1(X)) { (.., VerifSlice1::Empty) => A, (.., VerifSlice1::One(p)) => B, .. }`
+    (Verus has no slice patterns). `verif_slice1` returns Empty for length 0, One(&X[0]) for length 1 and
+    Many otherwise, so every arm is selected for exactly the same inputs with the same binding."""
+    n = 0
+    m, _ = mask(text)
+    out = text
+    for mm in reversed(list(re.finditer(r'\bmatch\s*\(([^(){}]*?),\s*(\w+)\)\s*\{', m))):
+        ob = mm.end() - 1
+        cb = match_close(m, ob)
+        body = out[ob:cb + 1]
+        if not re.search(r',\s*\[\s*\w*\s*\]\s*\)\s*=>', body):
+            continue
+        body2, c1 = re.subn(r',(\s*)\[\s*\]\s*\)(\s*)=>', r',\1VerifSlice1::Empty)\2=>', body)
+        body2, c2 = re.subn(r',(\s*)\[\s*(\w+)\s*\]\s*\)(\s*)=>', r',\1VerifSlice1::One(\2))\3=>', body2)
+        head = out[mm.start():ob]
+        head2 = re.sub(r',\s*(\w+)\)\s*$', lambda k: ', verif_slice1(%s)) ' % k.group(1), head)
+        out = out[:mm.start()] + head2 + body2 + out[cb + 1:]
+        n += c1 + c2
+    return out, n
+
+
 def r11_prost_paths(text):
     m, _ = mask(text)
     cnt = 0
@@ -511,6 +534,10 @@ def apply_all(text, extra=()):
             text, c = r17_full_range(text)
             if c:
                 log['R17'] = c
+        if name == 'R21':
+            text, c = r21_slice_patterns(text)
+            if c:
+                log['R21'] = c
         if name == 'R9':
             text, c = r9_raw_parts(text)
             if c:
